@@ -46,7 +46,19 @@ func (w *World) translateGlobals() (err error) {
 	g := w.newFuncCtx("<globals>")
 	g.noHeap = true
 	st := newState()
+	// uninterpreted declarations first (they may be used by definitions from other files), then definitions in file order
+	var ordered []*SpecFunc
 	for _, sf := range w.specOrder {
+		if sf.Body == nil {
+			ordered = append(ordered, sf)
+		}
+	}
+	for _, sf := range w.specOrder {
+		if sf.Body != nil {
+			ordered = append(ordered, sf)
+		}
+	}
+	for _, sf := range ordered {
 		if sf.Macro {
 			continue
 		}
@@ -646,6 +658,21 @@ func (w *World) buildQuery(f *FuncCtx, o *Obligation) string {
 	}
 	if len(lits) > 1 {
 		q.WriteString("(assert (distinct " + strings.Join(lits, " ") + "))\n")
+	}
+	// ground concatenation facts between literals of this query (no string theory): "ab" = "a" ++ "b"
+	if syms["str_cat"] && len(lits) <= 40 {
+		for _, a := range lits {
+			for _, b := range lits {
+				ta, tb := litText[a], litText[b]
+				if ta == "" || tb == "" {
+					continue
+				}
+				if c, ok := w.strLits[ta+tb]; ok && syms[c] {
+					fmt.Fprintf(&q, "(assert (= (str_cat %s %s) %s))\n", a, b, c)
+					fmt.Fprintf(&q, "(assert (forall ((q!x GoStr)) (! (= (str_cat %s (str_cat %s q!x)) (str_cat %s q!x)) :pattern ((str_cat %s (str_cat %s q!x))))))\n", a, b, c, a, b)
+				}
+			}
+		}
 	}
 	for _, d := range w.globalDecls {
 		q.WriteString(d + "\n")
